@@ -136,7 +136,9 @@ Definition attrs_of (i : inum) (o : obj) : attrs :=
      a_fileid := i; a_atime := o_atime o; a_mtime := o_mtime o |}.
 
 (* what the implementation did about resources for a creating call *)
-Inductive hint := HNone | HHandle (h : handle) | HNoSpace.
+(* HShort n: the implementation wrote only the first n bytes (a short write, which NFS allows
+   when space runs out; believed only when space really is short, see Agree.nospace_plausible) *)
+Inductive hint := HNone | HHandle (h : handle) | HNoSpace | HShort (n : N).
 
 Section WithParams.
 Variable P : params.
@@ -197,7 +199,7 @@ Definition create (s : afs) (h : handle) (n : name) (k : kind) (content : bytes)
     if p_wtmax P <? lenN content then (s, RStatus ERR) else
     match hi with
     | HNoSpace => (s, RStatus ERR)                    (* resource failure: no effect (plausibility: Agree.need) *)
-    | HNone => (s, RStatus OK)                        (* the call must succeed: no error reply can agree *)
+    | HNone | HShort _ => (s, RStatus OK)             (* the call must succeed: no error reply can agree *)
     | HHandle hh =>
       match parse_handle hh with
       | Some (i, g) =>
@@ -297,11 +299,12 @@ Definition do_write (s : afs) (h : handle) (off cnt : N) (st : stable) (d : byte
     match hi with
     | HNoSpace => (s, RStatus ERR)
     | _ =>
+      let n := match hi with HShort k => N.min k cnt | _ => cnt end in
       (* a zero-length write changes nothing (in particular it does not extend the file) *)
-      let o' := if cnt =? 0 then o else
-                with_content o (N.max (o_size o) (off + cnt)) (write_bytes (o_data o) off d) in
+      let o' := if n =? 0 then o else
+                with_content o (N.max (o_size o) (off + n)) (write_bytes (o_data o) off (takeN n d)) in
       let committed := if unstable_opt s then st else FileSync in
-      (set_obj s i o', RWritten cnt committed (attrs_of i o'))
+      (set_obj s i o', RWritten n committed (attrs_of i o'))
     end
   end.
 
@@ -368,8 +371,8 @@ Definition step (s : afs) (c : call) (hi : hint) : afs * reply :=
       | Some (i, o) => if negb (bool_decide (o_kind o = KFile)) then (s, RStatus ERR)
                        else if o_size o <? off + cnt then (s, RStatus ERR) else (s, RStatus OK)
       end
-  | CFsinfo h => (s, RFsinfo (p_wtmax P) (p_maxfilesize P))
-  | CPathconf h => (s, RPathconf (p_name_max P))
+  | CFsinfo h => match resolve s h with Some _ => (s, RFsinfo (p_wtmax P) (p_maxfilesize P)) | None => (s, RStatus STALE) end
+  | CPathconf h => match resolve s h with Some _ => (s, RPathconf (p_name_max P)) | None => (s, RStatus STALE) end
   | CUnsupported => (s, RStatus NOTSUPP)
   | CNull => (s, RStatus OK)
   | CRestart => (s, RStatus OK)
